@@ -412,7 +412,10 @@ def run(cx):
         ob.require(not cl, "ext-clone", f"Extensions map cloned at {cl[:3]}", cl[0][0] if cl else "")
 
     with cx.ob("C01.11", "R-MUSTPASS", "a dial that names an identity is reported established only after the pinned handshake: the connect API always sends the ConnectRequest (as C03.10) and the manager's mailbox arm always dials it (C08.2 re-evaluated)") as ob:
-        from .c03 import check_connect_always_dials, check_dials_pinned
+        from .c03 import check_connect_always_dials, check_dials_pinned, check_pin_verifier
+        # the pin is compared with the key of the end-entity certificate - the one whose private key the handshake signature
+        # proves - before anything is delegated (C03.3): a pin satisfied by some other certificate of the chain admits its replayer
+        check_pin_verifier(ob, cx)
         check_connect_always_dials(ob, cx)
         # ... and every dial that knows whom it expects - the background dials of known peers included - is pinned to that
         # identity (C03.7): an answerer that cannot prove the expected key is never admitted under that dial
